@@ -15,6 +15,7 @@ func init() {
 	register("C13", &propInfo{
 		run: func(c *Ctx) {
 			genRules(c, "G1", "G2", "G3", "G4")
+			ruleG6(c)
 			ruleV6(c)
 		},
 		explanation: "Decides the order-independence and completeness structure of the OCI spec generator: in every Adjust* function no removal-marked delete of a piece of spec state can run after an insert into the same state (so a set wins over a removal of the same key whatever the map or list order), a keyed table built from an adjustment list consults the marker when inserting, no map range produces order-dependent output; Generator.Adjust passes every field of the adjustment to a function and returns every error; every listed resource field, cgroups path, OOM score, args, rlimits, the six hook lists and CDI devices are fed to a spec setter under the field's own presence test; mounts are re-sorted after the last added mount on every successful path and the comparator orders by path depth then destination; the env separator agrees across the four places that split or join it.",
@@ -1041,4 +1042,61 @@ func rangeElemOf(v ssa.Value, d int) ssa.Value {
 		}
 	}
 	return nil
+}
+
+// ---------------------------------------------------------------- G6 plugin order is kept
+
+// isSortingCall: a call that reorders its argument (sort.*, slices.Sort*/Reverse).
+func isSortingCall(m *Module, ci ssa.CallInstruction) bool {
+	g := m.callee(ci.Common())
+	if g == nil {
+		return false
+	}
+	o := g
+	if g.Origin() != nil {
+		o = g.Origin()
+	}
+	if o.Pkg == nil {
+		return false
+	}
+	switch o.Pkg.Pkg.Path() {
+	case "sort":
+		switch o.Name() {
+		case "Sort", "Stable", "Slice", "SliceStable", "Strings", "Ints", "Float64s":
+			return true
+		}
+	case "slices":
+		return strings.HasPrefix(o.Name(), "Sort") || o.Name() == "Reverse"
+	}
+	return false
+}
+
+// ruleG6: neither the merge functions nor the generator's adjust functions reorder what the plugins
+// listed (the one sorting step, of the spec's mounts, is the separate function decided by G4).
+func ruleG6(c *Ctx) {
+	m := c.M
+	c.rule("G6", "plugin order is kept: no merge function and no Adjust*/Inject* function of the generator calls a sorting or reversing routine — list-valued items reach the runtime in the order the plugins (and each plugin's response) listed them; the only sort is the mount sorting step decided by G4", 20)
+	var fam []*ssa.Function
+	fam = append(fam, mergeFamily(m)...)
+	fam = append(fam, adjustFamily(m)...)
+	for _, f := range fam {
+		bad := ""
+		fns := append([]*ssa.Function{f}, f.AnonFuncs...)
+		for _, g := range fns {
+			for _, ci := range calls(g) {
+				if isSortingCall(m, ci) {
+					// the mount sorting step written inline: sort.Sort/Stable with the package's own comparator type (G4)
+					if len(ci.Common().Args) == 1 {
+						if mi, ok := ci.Common().Args[0].(*ssa.MakeInterface); ok {
+							if n, ok := types.Unalias(mi.X.Type()).(*types.Named); ok && n.Obj().Pkg() != nil && n.Obj().Pkg().Path() == pkgGen {
+								continue
+							}
+						}
+					}
+					bad = fmt.Sprintf("%s is called at %s", m.calleeName(ci.Common()), c.pos(ci.Pos()))
+				}
+			}
+		}
+		c.ok("G6", funcKey(f), f.Pos(), bad == "", funcKey(f)+" keeps the order of the lists it is given", bad+": the combined adjustment is applied in a different order than the plugins' individual adjustments would be (devices, CDI devices, hooks, env and args are order-sensitive)")
+	}
 }
